@@ -20,6 +20,34 @@ Proof.
   - apply IH. intros Hin. apply Hx. right. exact Hin.
 Qed.
 
+Definition gb_keys (l : list (Z * nat * nat)) : list Z := map (fun w => fst (fst w)) l.
+
+Lemma gb_lookup_none k l : gb_lookup k l = None <-> ~ In k (gb_keys l).
+Proof.
+  induction l as [|[[j g] c] t IH]; [cbn; tauto|]. cbn [gb_lookup gb_keys map fst In].
+  destruct (Z.eqb_spec j k) as [->|Hne]; [split; [discriminate|intros H; exfalso; apply H; left; reflexivity]|].
+  rewrite IH. unfold gb_keys. tauto.
+Qed.
+
+Lemma gb_del_keys k l : NoDup (gb_keys l) -> NoDup (gb_keys (gb_del k l)) /\ ~ In k (gb_keys (gb_del k l)).
+Proof.
+  induction l as [|[[j g] c] t IH]; intros Hnd; [split; [constructor|auto]|].
+  cbn [gb_keys map fst] in Hnd. inversion Hnd as [|? ? Hj Ht]; subst. fold (gb_keys t) in *.
+  cbn [gb_del]. destruct (Z.eqb_spec j k) as [->|Hne]; [split; assumption|].
+  destruct (IH Ht) as [IH1 IH2]. cbn [gb_keys map fst]. fold (gb_keys (gb_del k t)). split.
+  - constructor; [|exact IH1]. intros Hin. apply Hj.
+    clear - Hin. induction t as [|[[i g'] c'] t IHt]; [destruct Hin|]. cbn [gb_del] in Hin.
+    destruct (Z.eqb_spec i k); cbn [gb_keys map fst In] in *; [right; exact Hin|].
+    destruct Hin as [H|H]; [left; exact H|right; apply IHt; exact H].
+  - intros [H|H]; [congruence|auto].
+Qed.
+
+Lemma gb_del_in k l x : In x (gb_del k l) -> In x l.
+Proof.
+  induction l as [|[[j g] c] t IH]; [auto|]. cbn [gb_del]. destruct (j =? k); cbn [In]; intuition.
+Qed.
+
+
 Section Group.
 Context {A W B : Type}.
 Variables (key : A -> res Z) (elem : A -> res W) (dur : nat -> res bool).
@@ -131,35 +159,9 @@ Qed.
 
 (* invariant of the writers table: keys are unique (it is a dict), group ids and
    duration sources are fresh *)
-Definition gb_keys (l : list (Z * nat * nat)) : list Z := map (fun w => fst (fst w)) l.
 Definition gb_inv (s : gb_st) : Prop :=
   NoDup (gb_keys (gb_writers s))
   /\ (forall k g c, In (k, g, c) (gb_writers s) -> (g < gb_next s)%nat /\ (c <= gb_calls s)%nat).
-
-Lemma gb_lookup_none k l : gb_lookup k l = None <-> ~ In k (gb_keys l).
-Proof.
-  induction l as [|[[j g] c] t IH]; [cbn; tauto|]. cbn [gb_lookup gb_keys map fst In].
-  destruct (Z.eqb_spec j k) as [->|Hne]; [split; [discriminate|intros H; exfalso; apply H; left; reflexivity]|].
-  rewrite IH. unfold gb_keys. tauto.
-Qed.
-
-Lemma gb_del_keys k l : NoDup (gb_keys l) -> NoDup (gb_keys (gb_del k l)) /\ ~ In k (gb_keys (gb_del k l)).
-Proof.
-  induction l as [|[[j g] c] t IH]; intros Hnd; [split; [constructor|auto]|].
-  cbn [gb_keys map fst] in Hnd. inversion Hnd as [|? ? Hj Ht]; subst. fold (gb_keys t) in *.
-  cbn [gb_del]. destruct (Z.eqb_spec j k) as [->|Hne]; [split; assumption|].
-  destruct (IH Ht) as [IH1 IH2]. cbn [gb_keys map fst]. fold (gb_keys (gb_del k t)). split.
-  - constructor; [|exact IH1]. intros Hin. apply Hj.
-    clear - Hin. induction t as [|[[i g'] c'] t IHt]; [destruct Hin|]. cbn [gb_del] in Hin.
-    destruct (Z.eqb_spec i k); cbn [gb_keys map fst In] in *; [right; exact Hin|].
-    destruct Hin as [H|H]; [left; exact H|right; apply IHt; exact H].
-  - intros [H|H]; [congruence|auto].
-Qed.
-
-Lemma gb_del_in k l x : In x (gb_del k l) -> In x l.
-Proof.
-  induction l as [|[[j g] c] t IH]; [auto|]. cbn [gb_del]. destruct (j =? k); cbn [In]; intuition.
-Qed.
 
 (* seen again after its group expired: the key has no writer any more, so the
    next element with that key gets a NEW group *)
@@ -202,6 +204,21 @@ Proof.
     + intros k' g' c' Hin. apply (Hfr k' g' c'). eapply gb_del_in. exact Hin.
 Qed.
 
+(* group_by_until never unsubscribes the main source itself (only duration observables) *)
+Theorem group_never_unsubs_source : never_unsubs M 0%nat.
+Proof.
+  assert (Hall : forall l (e : ev W), existsb (is_unsub (W:=W) (B:=B) 0) (gb_all l e) = false).
+  { intros l e. unfold gb_all. induction (gb_groups l); auto. }
+  intros s now i. destruct i as [[|d] [x|z|]|tag| | |]; cbn [x_step x_group_by_until fst snd]; try reflexivity;
+    try apply Hall.
+  - unfold gb_on_next. destruct (key x); [|apply Hall].
+    destruct (gb_lookup _ _); [destruct (elem x); [reflexivity|apply Hall]|].
+    destruct (dur (gb_calls s)) as [hot|e]; [|apply Hall].
+    destruct (elem x); destruct hot; cbn [fst snd existsb is_unsub app orb]; try reflexivity; apply Hall.
+  - destruct (gb_by_dur (S d) (gb_writers s)) as [[k g]|]; reflexivity.
+  - destruct (gb_by_dur (S d) (gb_writers s)) as [[k g]|]; reflexivity.
+Qed.
+
 Theorem gb_inv_always (imm : nat -> bool) (ins : list (Z * inp A)) :
   gb_inv (fst (after imm M (fst (start_state imm M)) (snd (start_state imm M)) ins)).
 Proof.
@@ -210,3 +227,136 @@ Proof.
   - split; [constructor|intros k g c []].
 Qed.
 End Group.
+
+(* ------------------------------------------------------------- partition -- *)
+Section PartitionFacts.
+Context {A : Type}.
+Variable pred : A -> res bool.
+
+Definition goes_to (b : bool) (g : nat) : bool := match g with O => b | _ => negb b end.
+
+(* a non-raising predicate: the element is delivered to the subscribers of output 0 if the
+   predicate holds, of output 1 otherwise -- nobody else, nothing else changes *)
+Theorem partition_deliver (x : A) b : pred x = Ok b -> forall todo subs conn,
+  pt_deliver pred x todo subs conn
+  = (subs, conn, map (fun g => OWin g (Next x)) (filter (goes_to b) todo)).
+Proof.
+  intros Hp. induction todo as [|g t IH]; intros subs conn; [reflexivity|]. cbn [pt_deliver filter].
+  unfold pt_pred. rewrite Hp. destruct g as [|g]; cbn [goes_to].
+  - destruct b; rewrite IH; reflexivity.
+  - destruct b; cbn [negb]; rewrite IH; reflexivity.
+Qed.
+
+(* each element goes to exactly one of the two outputs: never to both *)
+Theorem partition_exactly_one (x : A) b s : pred x = Ok b -> pt_conn s = true -> pt_stopped s = None ->
+  let o := snd (pt_step pred s (ISrc 0%nat (Next x))) in
+  (forall g, In (OWin g (Next x)) o <-> In g (pt_subs s) /\ goes_to b g = true)
+  /\ ~ (In (OWin 0%nat (Next x)) o /\ In (OWin 1%nat (Next x)) o)
+  /\ fst (pt_step pred s (ISrc 0%nat (Next x))) = s.
+Proof.
+  intros Hp Hc Hs. cbn zeta. cbn [pt_step]. rewrite Hc, Hs, (partition_deliver x b Hp). cbn [fst snd].
+  split; [|split].
+  - intros g. rewrite in_map_iff. split.
+    + intros [j [Hj Hin]]. injection Hj as ->. apply filter_In in Hin. exact Hin.
+    + intros H. exists g. split; [reflexivity|]. apply filter_In. exact H.
+  - intros [H0 H1]. apply in_map_iff in H0. destruct H0 as [j [Hj Hin]]. injection Hj as ->.
+    apply in_map_iff in H1. destruct H1 as [j [Hj Hin1]]. injection Hj as ->.
+    apply filter_In in Hin. apply filter_In in Hin1. destruct Hin as [_ Ha]. destruct Hin1 as [_ Hb].
+    cbn [goes_to] in *. rewrite Ha in Hb. discriminate.
+  - destruct s; cbn in *. subst. reflexivity.
+Qed.
+
+(* the source is subscribed iff some output subscriber is live; a terminated subject has none *)
+Definition pt_inv (s : pt_st (A:=A)) : Prop :=
+  (pt_conn s = true <-> pt_subs s <> []) /\ (pt_stopped s <> None -> pt_subs s = []).
+
+Lemma pt_leave_inv subs conn : (conn = true <-> subs <> []) -> forall g,
+  (fst (pt_leave (A:=A) (remove g subs) conn) = true <-> remove g subs <> []).
+Proof.
+  intros H g. unfold pt_leave. destruct (remove g subs) as [|j t] eqn:E.
+  - destruct conn; cbn; split; intros H1; try discriminate; contradiction.
+  - cbn [fst]. split; [intros _; discriminate|]. intros _. apply H. intros ->. discriminate.
+Qed.
+
+Lemma pt_deliver_inv (x : A) : forall todo subs conn, (conn = true <-> subs <> []) ->
+  let '(s', c', _) := pt_deliver pred x todo subs conn in (c' = true <-> s' <> []).
+Proof.
+  induction todo as [|g t IH]; intros subs conn H; [exact H|]. cbn [pt_deliver].
+  destruct (pt_pred pred g x) as [[|]|e].
+  - specialize (IH subs conn H). destruct (pt_deliver pred x t subs conn) as [[s' c'] o]. exact IH.
+  - apply IH. exact H.
+  - pose proof (pt_leave_inv subs conn H g) as H1.
+    destruct (pt_leave (A:=A) (remove g subs) conn) as [c1 o1]. cbn [fst] in H1.
+    specialize (IH (remove g subs) c1 H1). destruct (pt_deliver pred x t (remove g subs) c1) as [[s' c'] o]. exact IH.
+Qed.
+
+Lemma remove_head g (t : list nat) : remove g (g :: t) = t.
+Proof. cbn. now rewrite Nat.eqb_refl. Qed.
+
+Lemma pt_terminate_all (e : ev A) : forall l conn,
+  fst (fst (pt_terminate e l l conn)) = [] /\ (l <> [] -> snd (fst (pt_terminate e l l conn)) = false).
+Proof.
+  induction l as [|g t IH]; intros conn; [split; [reflexivity|intros H; contradiction]|].
+  cbn [pt_terminate]. rewrite remove_head.
+  destruct (pt_leave (A:=A) t conn) as [c1 o1] eqn:El. specialize (IH c1).
+  destruct (pt_terminate e t t c1) as [[s' c'] o] eqn:Et. cbn [fst snd] in *. destruct IH as [IH1 IH2].
+  split; [exact IH1|]. intros _. destruct t as [|j t'].
+  - cbn in Et. injection Et as <- <- <-. unfold pt_leave in El. destruct conn; injection El as <- <-; reflexivity.
+  - apply IH2. discriminate.
+Qed.
+
+Theorem pt_step_inv s i : pt_inv s -> pt_inv (fst (pt_step pred s i)).
+Proof.
+  intros Hinv. pose proof Hinv as [H1 H2].
+  destruct i as [k e|tag| |g|g]; cbn [pt_step]; try exact Hinv.
+  - destruct k; [|exact Hinv]. destruct (pt_conn s) eqn:Ec; [|exact Hinv].
+    destruct (pt_stopped s) eqn:Es; [exact Hinv|].
+    destruct e as [x|z|].
+    + pose proof (pt_deliver_inv x (pt_subs s) (pt_subs s) true) as Hd. specialize (Hd H1).
+      destruct (pt_deliver pred x (pt_subs s) (pt_subs s) true) as [[s' c'] o]. cbn [fst].
+      split; cbn [pt_conn pt_subs pt_stopped]; [exact Hd|intros H; contradiction].
+    + destruct (pt_terminate_all (Err z) (pt_subs s) true) as [Ha Hb].
+      destruct (pt_terminate (Err z) (pt_subs s) (pt_subs s) true) as [[s' c'] o]. cbn [fst snd] in *. subst s'.
+      split; cbn [pt_conn pt_subs pt_stopped]; [split; [discriminate|intros H; contradiction]|auto].
+    + destruct (pt_terminate_all Done (pt_subs s) true) as [Ha Hb].
+      destruct (pt_terminate Done (pt_subs s) (pt_subs s) true) as [[s' c'] o]. cbn [fst snd] in *. subst s'.
+      split; cbn [pt_conn pt_subs pt_stopped]; [split; [discriminate|intros H; contradiction]|auto].
+  - destruct (pt_stopped s) eqn:Es.
+    + destruct (match pt_subs s with [] => true | _ => false end && negb (pt_conn s)); exact Hinv.
+    + destruct (match pt_subs s with [] => true | _ => false end && negb (pt_conn s)) eqn:E; cbn [fst];
+        split; cbn [pt_conn pt_subs pt_stopped]; try (intros H; contradiction).
+      * split; [intros _; destruct (pt_subs s); discriminate|reflexivity].
+      * split; [intros _; destruct (pt_subs s); discriminate|].
+        intros _. destruct (pt_subs s) as [|j t] eqn:El.
+        -- cbn in E. apply negb_false_iff in E. exact E.
+        -- apply H1. discriminate.
+  - destruct (mem g (pt_subs s)); [|exact Hinv].
+    pose proof (pt_leave_inv (pt_subs s) (pt_conn s) H1 g) as Hl.
+    destruct (pt_leave (A:=A) (remove g (pt_subs s)) (pt_conn s)) as [c1 o1]. cbn [fst] in *.
+    split; cbn [pt_conn pt_subs pt_stopped]; [exact Hl|].
+    intros Hs. rewrite (H2 Hs). reflexivity.
+Qed.
+
+Theorem pt_inv_always (ins : list (Z * inp A)) : pt_inv (pt_after pred (PtSt [] false None) ins).
+Proof.
+  assert (G : forall s, pt_inv s -> pt_inv (pt_after pred s ins)).
+  { induction ins as [|[now i] rest IH]; intros s Hs; [exact Hs|]. cbn [pt_after]. apply IH, pt_step_inv, Hs. }
+  apply G. split; cbn; [split; [discriminate|intros H; contradiction]|auto].
+Qed.
+
+(* release: when the last output subscriber leaves, the source subscription is disposed
+   at that very input; while another subscriber stays, it is kept *)
+Theorem partition_last_leaves s g : pt_inv s -> pt_subs s = [g] ->
+  pt_step pred s (IUnsubWin g) = (PtSt [] false (pt_stopped s), [OUnsub 0%nat]).
+Proof.
+  intros [H1 _] Hs. cbn [pt_step]. rewrite Hs. unfold Multi.mem. cbn [existsb]. rewrite Nat.eqb_refl. cbn [orb].
+  rewrite remove_head. cbn [pt_leave].
+  assert (pt_conn s = true) by (apply H1; rewrite Hs; discriminate). now rewrite H.
+Qed.
+
+Theorem partition_other_stays s g : mem g (pt_subs s) = true -> remove g (pt_subs s) <> [] ->
+  pt_step pred s (IUnsubWin g) = (PtSt (remove g (pt_subs s)) (pt_conn s) (pt_stopped s), []).
+Proof.
+  intros Hm Hr. cbn [pt_step]. rewrite Hm. unfold pt_leave. destruct (remove g (pt_subs s)); [contradiction|reflexivity].
+Qed.
+End PartitionFacts.
